@@ -15,7 +15,7 @@ EXACT_PARTS = {"ptm1", "ptm2", "ptm3", "ptm4", "bbox"}
 def isel_aux(aux, xr, idx):
     out = dict(aux)
     for k in ("wspd", "wdir", "dpt"):
-        out[k] = aux[k].isel(idx)
+        out[k] = aux[k].isel({d: i for d, i in idx.items() if d in aux[k].dims})
     return out
 
 
@@ -129,9 +129,10 @@ def one(ctx, rng, xr, ops, names):
     npos = int(np.prod(lsizes)) if lsizes else 1
     # neighbouring spectra deliberately very different (peak bins, amplitudes, one all-zero)
     specs = []
+    wide = bool(rng.random() < 0.3)      # calm next to storm: energies seven decades apart within one dataset
     for p in range(npos):
         cls = str(rng.choice(["multimodal", "smooth", "noise", "single_bin", "zeros", "dynrange"], p=[.35, .25, .15, .1, .1, .05]))
-        specs.append(gen.spectrum(rng, f, th, cls)[0] * float(10 ** rng.uniform(-2, 1)))
+        specs.append(gen.spectrum(rng, f, th, cls)[0] * float(10 ** rng.uniform(-7 if wide else -2, 1)))
     A = np.array(specs).reshape(tuple(lsizes) + (nf, len(th)))
     dt = str(rng.choice(["float64", "float32"]))
     x = gen.make_da(A, f, th, lnames, lsizes, dtype=dt)
@@ -196,6 +197,8 @@ def one(ctx, rng, xr, ops, names):
             x2.loc[{d: x[d][i] for d, i in p0.items()}] = xr.DataArray(newspec.astype(dt), dims=["freq", "dir"], coords={"freq": x.freq, "dir": x.dir}).transpose(*[d for d in x.dims if d in ("freq", "dir")])
             aux2 = dict(aux)
             for k in ("wspd", "wdir", "dpt"):
+                if set(aux[k].dims) != set(p0):
+                    continue        # forcing shared between positions: changing it would legitimately change the others
                 a2 = aux[k].copy(deep=True)
                 a2[p0] = float(a2[p0]) * 1.7 + 1.0
                 aux2[k] = a2
